@@ -15,8 +15,16 @@ use crate::case::*;
 use crate::ctx::{Actor, Ev, ExecCtx, Res, SchedMode, Tok, TokKind};
 use crate::rt;
 
-pub fn mt(ns_after_epoch: u64) -> MonotonicTime {
-    MonotonicTime::EPOCH + Duration::from_nanos(ns_after_epoch)
+/// Time stamps of a case are `u64` nanosecond counts whose origin lies `EPOCH_OFFSET_NS` (about
+/// 0.95 years) *before* the epoch of `MonotonicTime`: about 30 % of the generated start times are
+/// therefore pre-epoch (negative seconds), and some runs cross the epoch.
+pub const EPOCH_OFFSET_NS: u64 = 30_000_000_000_000_000;
+pub fn mt(ns: u64) -> MonotonicTime {
+    if ns >= EPOCH_OFFSET_NS {
+        MonotonicTime::EPOCH + Duration::from_nanos(ns - EPOCH_OFFSET_NS)
+    } else {
+        MonotonicTime::EPOCH - Duration::from_nanos(EPOCH_OFFSET_NS - ns)
+    }
 }
 pub fn tt(t: MonotonicTime) -> (i64, u32) {
     (t.as_secs(), t.subsec_nanos())
